@@ -44,6 +44,14 @@ NodeVerdict ==
          <<"xor", key <= 255 /\ val = XorKey(T.pval, key) /\ T.s = 0 /\ T.e = Len(T.pval)>>
     [] obf = "cipher.multibyte_xor" ->
          <<"xor", Len(val) = Len(T.pval) /\ \E L \in 1..65 : RepeatingXor(T.pval, val, L)>>
+    [] obf = "" /\ ty = "powershell.bytes" ->          \* a byte array literal: decimal or 0x-hexadecimal elements separated by commas
+         LET parts == SplitAt(cov, 44)
+             strip(x) == SelectSeq(x, LAMBDA c : ~IsWs(c))
+             num(x) == LET y == strip(x) IN
+                       IF Len(y) >= 3 /\ y[1] = 48 /\ (y[2] = 120 \/ y[2] = 88) /\ (\A i \in 3..Len(y) : IsHexDigit(y[i])) THEN HexNum(SubSeq(y, 3, Len(y)))
+                       ELSE IF AllDigits(y) /\ Len(y) <= 3 THEN DecVal(y) ELSE -1
+             vals == [i \in 1..Len(parts) |-> num(parts[i])]
+         IN <<"psbytes", Len(parts) >= 501 /\ (\A i \in 1..Len(vals) : vals[i] >= 0 /\ vals[i] <= 255) /\ val = vals>>
     [] obf = "unescape.xml" -> <<"xml", val = XmlRefs(cov) /\ Len(val) >= 5>>
     [] obf = "function.chr" ->
          LET open == CHOOSE i \in 1..Len(cov) : cov[i] = 40
@@ -105,6 +113,9 @@ Instance ==
                           val |-> PercentDecode(T.escaped), dom |-> \A i \in 1..Len(T.escaped) : T.escaped[i] # SQ]
     [] e = "utf16" -> [blob |-> Utf16Encode(p), ty |-> "", obf |-> "codec.uft-16", val |-> Utf16ToUtf8(Utf16Encode(p)),
                        dom |-> Len(p) >= 7 /\ \A i \in 1..Len(p) : Utf16Char(p[i])]
+    [] e = "utf16multi" -> LET runs == SplitAt(p, 0) IN
+                       [blob |-> Utf16Encode(p), ty |-> "", obf |-> "codec.uft-16", val |-> Utf16ToUtf8(Utf16Encode(p)),
+                        dom |-> Len(runs) >= 2 /\ \A k \in 1..Len(runs) : Len(runs[k]) >= 7 /\ \A i \in 1..Len(runs[k]) : Utf16Char(runs[k][i])]
     [] e = "concat" -> [blob |-> T.blob, ty |-> "string", obf |-> "concatenation", val |-> ConcatValue(ParseConcat(T.blob)),
                         dom |-> ConcatInDomain(ParseConcat(T.blob))]
     [] e = "reverse" -> LET q == ParseCall1(T.blob, T.name) IN
